@@ -52,6 +52,15 @@ fn main() {
         println!("INCONCLUSIVE property={} reason=unknown_property", id);
         std::process::exit(2);
     }
+    // the same monitor executed against the production-profile build of the crate (see /verif/check)
+    if let Some(i) = run.cfg.extra.iter().position(|a| a == "--prod-summary") {
+        let path = run.cfg.extra.get(i + 1).cloned().unwrap_or_default();
+        run.import_lane("production", &path);
+        run.require(&["production lane judged"]);
+        run.assume("judged in two builds of the crate: checked (overflow-checks + debug-assertions, full workload of the tier) and production (neither; quick-tier workload), the second folded in as the `production` lane");
+    } else if cfg!(not(debug_assertions)) {
+        run.assume("this is the production-profile lane: overflow-checks = false, debug-assertions = false");
+    }
     let code = run.finish();
     std::process::exit(code);
 }
